@@ -210,8 +210,16 @@ def history_problems(GFA, ops, d, every_step=True):
         except Exception as e:  # noqa
             out.append("op %d %s raised %s: %s" % (i, op[:6] if op[0] != "load" else "load", type(e).__name__, e))
             return out, side, g, m
-        if every_step or i == len(ops) - 1:
+        # every_step: True = adjacency checked after every operation; False = only at the end; a list of operation indices = adjacency AND the
+        # traversals (components, dfs, biccs) checked after those operations only, so that whatever a traversal or neighbors() leaves behind in the
+        # nodes (flags, caches) meets several later edits before it is looked at again (added after seeded change C15-7)
+        sparse = isinstance(every_step, list)
+        if (every_step is True) or i == len(ops) - 1 or (sparse and i in every_step):
             p = structure_problems(g, list(m.nodes), m.links)
+            if not p and sparse and i != len(ops) - 1 and m.nodes:
+                names = sorted(m.nodes)
+                lk = [gl.declare(e1, e2) + (ov,) for e1, e2, ov in sorted(m.links)]
+                p = decomposition_problems(g, names, lk, names, "cycles" if len(names) <= 7 else "lowpoint")
             if p:
                 out.append("after op %d %s: %s" % (i, list(op[:6]) if op[0] != "load" else "load", p[0]))
                 return out, side, g, m
@@ -456,6 +464,12 @@ def _run(ctx):
     _history(R, "history-witness", [["add_node", "a", "ACG"], ["add_node", "s2", "T"], ["add_edge", "a", "+", "s2", "+", 0, ["SR:i:0"]], ["remove_node", "s2"]])
     _history(R, "history-witness", [["load", [["a", "ACG", ["SN:Z:chr1", "SO:i:0", "SR:i:0"]], ["s2", "T", ["SN:Z:chr1", "SO:i:3", "SR:i:0"]]],
                                      [["a", "+", "s2", "+", 0]], "file"], ["remove_node", "s2"]])
+    # look, delete a neighbour, link a replacement (same number of links as before), look again - in every orientation of the two links
+    for o1 in "+-":
+        for o2 in "+-":
+            _history(R, "history-witness", [["add_node", "a", "ACG"], ["add_node", "s2", "T"], ["add_node", "10", "GG"], ["add_edge", "a", o1, "s2", o2, 0, []],
+                                            ["add_edge", "s2", o2, "10", o1, 0, []], ["remove_node", "s2"], ["add_node", "n_4", "C"],
+                                            ["add_edge", "a", o1, "n_4", o2, 0, []], ["add_edge", "n_4", o2, "10", o1, 0, []]], every_step=[4])
     for ops in exhaustive_histories(hl):
         _history(R, "history-exhaustive", ops, every_step=False)
         if ctx.out_of_time(75 if quick else 750):
@@ -463,8 +477,9 @@ def _run(ctx):
     n_hist = 5000 if quick else 40000
     ctx.bound("%d random histories of 1..12 operations over a pool of 5 node ids (add_node incl. re-adding a deleted id, add_edge in all "
               "orientations incl. self-links, overlaps 0/2, optional link tags, remove_node / del graph[id], remove_edge from either end), "
-              "a third of them starting from a graph loaded from a GFA file or built through the API; adjacency checked after every "
-              "operation, is_equal_to + decomposition checked at the end" % n_hist)
+              "a third of them starting from a graph loaded from a GFA file or built through the API; for every other history adjacency is checked after every "
+              "operation, for the rest adjacency and all traversals after a random quarter of the operations only (state left in the nodes by a traversal meets "
+              "several edits); is_equal_to + decomposition checked at the end" % n_hist)
     pool = NAMES[:5]
     for i in range(n_hist):
         base = None
@@ -473,7 +488,11 @@ def _run(ctx):
             nm = pool[:k]
             base = ["load", [list(x) for x in _nodes(nm)], [list(l) for l in gl.orient_random(rng, gl.random_graph(rng, k), nm)],
                     "file" if i % 2 else "api"]
-        _history(R, "history-random", random_history(rng, 12, pool, base))
+        ops = random_history(rng, 12, pool, base)
+        if i % 2:
+            _history(R, "history-random", ops)
+        else:  # looked at after a few of the operations only
+            _history(R, "history-random-sparse", ops, every_step=sorted(rng.sample(range(len(ops)), max(1, len(ops) // 4))))
         if ctx.out_of_time(85 if quick else 840):
             break
     # histories on the real rGFA (S-line tags, SN/SO/SR contigs)
